@@ -11,7 +11,7 @@ git -C /repo worktree add --detach $WT HEAD >/dev/null 2>&1 || { echo "cannot cr
 SAVE=$(mktemp -d)
 cp -r evidence $SAVE/
 trap 'git -C /repo worktree remove --force $WT; rm -rf evidence; mv $SAVE/evidence evidence; rm -rf $SAVE' EXIT
-grep '^fixed:' known_findings.txt | while read -r _ prop commit rest; do
+grep "^fixed:" known_findings.txt | grep -v "no static rule" | while read -r _ prop commit rest; do
   p=${prop#property=}
   [ $# -ge 1 ] && [ "$1" != "$p" ] && continue
   revok=1
